@@ -177,6 +177,11 @@ func UnzipToFolder(zipFile, destDir string) error {
 			continue
 		}
 
+		// the entry must stay inside destDir; ZipFolder writes names with a leading separator
+		if !filepath.IsLocal(strings.TrimLeft(z.Name, "/")) {
+			return fmt.Errorf("UnzipToFolder: the archive entry %q points outside of the destination folder: %w", z.Name, os.ErrInvalid)
+		}
+
 		partPath, _ := filepath.Split(z.Name)
 		destPath := filepath.Join(destDir, partPath)
 		if !pathChecked[destPath] {
